@@ -942,6 +942,65 @@ fn replay_search_synchronised_row(sc: &Value) -> Value {
     })
 }
 
+/// C17 local part: create, rewrite, delete and create again through the public API; is every current word found and no past word matched ?
+fn replay_search_local_history(_sc: &Value) -> Value {
+    use crate::database::graph_database::GraphDatabaseService;
+    use crate::database::query_language::parameter::{Parameters, ParametersAdd};
+    let rt = tokio::runtime::Builder::new_multi_thread().enable_all().worker_threads(2).build().unwrap();
+    rt.block_on(async {
+        let base = std::env::var("VERIF_DATA_DIR").unwrap_or_else(|_| "/var/cache/discret-verif/data".to_string());
+        let tag = crate::security::base64_encode(&crate::security::random32()[0..6]);
+        let path: std::path::PathBuf = format!("{}/c17/{}/local", base, tag).into();
+        std::fs::create_dir_all(&path).unwrap();
+        let (a, a_key, _) = GraphDatabaseService::start("verif c17 local", "ns { E{ name:String, other:String nullable } }", &crate::security::random32(),
+            &crate::security::random32(), path, &crate::configuration::Configuration::default(), crate::event_service::EventService::new()).await.unwrap();
+        let mut p = Parameters::default();
+        p.add("k", crate::security::base64_encode(&a_key)).unwrap();
+        let created = a
+            .mutate_raw(r#"mutate { sys.Room{ admin:[{ verif_key:$k }] authorisations:[{ name:"g" rights:[{ entity:"ns.E" mutate_self:true mutate_all:true }] users:[{ verif_key:$k }] }] } }"#, Some(p))
+            .await
+            .unwrap();
+        let room_uid = created.mutate_entities[0].node_to_mutate.id;
+        let finds = |a: GraphDatabaseService, word: &'static str| async move {
+            a.query(&format!(r#"query {{ ns.E(search("{}")){{ name }} }}"#, word), None).await.unwrap().contains("name\":")
+        };
+        let mut problems: Vec<String> = vec![];
+        let mut p = Parameters::default();
+        p.add("room", crate::security::base64_encode(&room_uid)).unwrap();
+        let row = a.mutate_raw(r#"mutate { ns.E{ room_id:$room name:"findable alpha text" other:"gamma side" } }"#, Some(p)).await.unwrap();
+        let row_uid = row.mutate_entities[0].node_to_mutate.id;
+        if !finds(a.clone(), "alpha").await { problems.push("created text not found".into()); }
+        if !finds(a.clone(), "gamma").await { problems.push("created second field not found".into()); }
+        let mut p = Parameters::default();
+        p.add("id", crate::security::base64_encode(&row_uid)).unwrap();
+        a.mutate_raw(r#"mutate { ns.E{ id:$id name:"rewritten beta words" } }"#, Some(p)).await.unwrap();
+        if finds(a.clone(), "alpha").await { problems.push("old text still matches after the first rewrite".into()); }
+        if !finds(a.clone(), "beta").await { problems.push("rewritten text not found".into()); }
+        if !finds(a.clone(), "gamma").await { problems.push("untouched field lost by the first rewrite".into()); }
+        let mut p = Parameters::default();
+        p.add("id", crate::security::base64_encode(&row_uid)).unwrap();
+        a.mutate_raw(r#"mutate { ns.E{ id:$id other:null } }"#, Some(p)).await.unwrap();
+        if finds(a.clone(), "gamma").await { problems.push("removed field still matches".into()); }
+        if !finds(a.clone(), "beta").await { problems.push("kept text lost when another field was removed".into()); }
+        let mut p = Parameters::default();
+        p.add("id", crate::security::base64_encode(&row_uid)).unwrap();
+        a.mutate_raw(r#"mutate { ns.E{ id:$id name:"third delta version" } }"#, Some(p)).await.unwrap();
+        if finds(a.clone(), "beta").await { problems.push("old text still matches after the second rewrite".into()); }
+        if !finds(a.clone(), "delta").await { problems.push("second rewrite not found".into()); }
+        let mut p = Parameters::default();
+        p.add("id", crate::security::base64_encode(&row_uid)).unwrap();
+        a.delete(r#"delete { ns.E{ $id } }"#, Some(p)).await.unwrap();
+        if finds(a.clone(), "delta").await { problems.push("deleted row still matches".into()); }
+        let mut p = Parameters::default();
+        p.add("room", crate::security::base64_encode(&room_uid)).unwrap();
+        a.mutate_raw(r#"mutate { ns.E{ room_id:$room name:"fresh epsilon row" } }"#, Some(p)).await.unwrap();
+        // deletions do not touch the index (Node::delete): observed on the unchanged tree, reported apart, not part of the write-path verdict
+        let slot_reuse_stale = finds(a.clone(), "delta").await;
+        if !finds(a.clone(), "epsilon").await { problems.push("row created after a deletion not found".into()); }
+        json!({"status": "done", "index_consistent": problems.is_empty(), "problems": problems, "stale_match_after_slot_reuse": slot_reuse_stale})
+    })
+}
+
 /// C18: the RoomNodeWrite arm of the real process_message with a real EventService subscriber, a real writer handle and a real reply channel
 fn replay_room_node_write_event(sc: &Value) -> Value {
     let rt = tokio::runtime::Builder::new_multi_thread().enable_all().worker_threads(2).build().unwrap();
@@ -2037,6 +2096,7 @@ pub fn dispatch(sc: &Value) -> Value {
         "handshake" => crate::synchronisation::peer_inbound_service::verif_hook::replay_handshake(sc),
         "version_selection" => replay_version_selection(sc),
         "search_synchronised_row" => replay_search_synchronised_row(sc),
+        "search_local_history" => replay_search_local_history(sc),
         "room_node_write_event" => replay_room_node_write_event(sc),
         "deleted_row_announced" => replay_deleted_row_announced(sc),
         "received_edge_foreign_source" => replay_received_edge_foreign_source(sc),
